@@ -48,15 +48,18 @@ namespace Dune {
       cls.def("assign", [](TV &self, const TV &x) { self = x; }, "x"_a);
       cls.def("copy", [](const TV &self) { return new TV(self); });
 
-      cls.def("__getitem__", [](const TV &self, size_t index) {
+      cls.def("__getitem__", [](py::object pyself, size_t index) {
+        const TV &self = pyself.cast<const TV &>();
 
         if (index >= self.size())
           throw py::index_error();
 
+        // the returned object refers to the element stored in self: it has to keep self alive
+        // (a return value policy on a function returning py::object does not do that)
         return Dune::Hybrid::switchCases(Dune::Hybrid::integralRange(Dune::index_constant<std::tuple_size_v<TV> >()),index, [&](auto i)  {
-            return py::cast(self[i],py::return_value_policy::reference);
+            return py::cast(self[i],py::return_value_policy::reference_internal,pyself);
           },[]() {return py::object{};});
-        },py::return_value_policy::reference_internal);
+        });
 
       cls.def("__setitem__", [&](TV &self, size_t index, const py::object &value) {
         if (index >= self.size())
